@@ -31,6 +31,7 @@ CONSTANTS
     Coarse,       \* BOOLEAN: timestamps may repeat (coarse mtime granularity)
     StatByName,   \* BOOLEAN: load() validates the entry by os.stat(name) after open()
                   \*          (the code before the "fix:" commit; FALSE = os.fstat of the descriptor)
+    StampFirst,   \* BOOLEAN what-if: _check_cache_version writes the stamp BEFORE purging (FALSE = the code)
     KnownCauses   \* root causes of stale loads recorded as known findings (see NoStaleUnexplained)
 
 VARIABLES
@@ -40,9 +41,10 @@ VARIABLES
     nextIno,
     entryIno,                 \* inode the entry name refers to; 0 = no such file
     stamp,                    \* content of .cache-version (0 = absent)
+    stampFrom,                \* the purge obligation (checkedAt) of the process that wrote the current stamp
     pc, fd, stm, parsed, tmp, result, startVer, checkedAt, putAt, puts
 
-vars == <<srcVer, srcMtime, edits, clock, files, nextIno, entryIno, stamp,
+vars == <<srcVer, srcMtime, edits, clock, files, nextIno, entryIno, stamp, stampFrom,
           pc, fd, stm, parsed, tmp, result, startVer, checkedAt, putAt, puts>>
 
 Free == [ver |-> 0, st |-> "free", mtime |-> 0, sver |-> 0, cause |-> "none"]
@@ -52,7 +54,7 @@ NoneRes == [k |-> "none", ver |-> 0, sver |-> 0, ino |-> 0, cause |-> "none"]
 Init ==
     /\ srcVer = 1 /\ srcMtime = 0 /\ edits = 0 /\ clock = 1
     /\ files = [i \in 1..MaxIno |-> Free]
-    /\ nextIno = 1 /\ entryIno = 0 /\ stamp = 1
+    /\ nextIno = 1 /\ entryIno = 0 /\ stamp = 1 /\ stampFrom = 0
     /\ pc = [p \in Procs |-> "cv_read"]
     /\ fd = [p \in Procs |-> 0] /\ stm = [p \in Procs |-> 0] /\ parsed = [p \in Procs |-> 0]
     /\ tmp = [p \in Procs |-> 0] /\ result = [p \in Procs |-> Pending]
@@ -71,34 +73,40 @@ Return(p, r) == result' = [result EXCEPT ![p] = r]
 EditSrc ==
     /\ edits < MaxEdits
     /\ edits' = edits + 1 /\ srcVer' = srcVer + 1 /\ srcMtime' = clock /\ Advance
-    /\ UNCHANGED <<files, nextIno, entryIno, stamp, pc, fd, stm, parsed, tmp, result, startVer, checkedAt, putAt, puts>>
+    /\ UNCHANGED <<files, nextIno, entryIno, stamp, stampFrom, pc, fd, stm, parsed, tmp, result, startVer, checkedAt, putAt, puts>>
 
 ---------------------------------------------------------------------------
 \* CacheStore.__init__ -> _check_cache_version
 CvRead(p) ==      \* open(version).read() compared with _get_versionhash()
     /\ pc[p] = "cv_read"
     /\ startVer' = [startVer EXCEPT ![p] = IF stamp = SVer[p] THEN srcVer ELSE @]   \* load() is called now
-    /\ IF stamp = SVer[p] THEN Goto(p, "l_open") /\ UNCHANGED checkedAt
-                          \* a mismatch obliges p to purge: nothing put before this point may be served to p
-                          ELSE Goto(p, "cv_list") /\ checkedAt' = [checkedAt EXCEPT ![p] = puts + 1]
-    /\ UNCHANGED <<srcVer, srcMtime, edits, clock, files, nextIno, entryIno, stamp, fd, stm, parsed, tmp, result, putAt, puts>>
+    /\ IF stamp = SVer[p]
+         \* the stamp says "entries of other versions are gone": p relies on the purge of whoever wrote
+         \* it and inherits that process's obligation (nothing put before THAT process looked may be
+         \* served to p either)
+         THEN Goto(p, "l_open") /\ checkedAt' = [checkedAt EXCEPT ![p] = stampFrom]
+         \* a mismatch obliges p to purge: nothing put before this point may be served to p
+         ELSE Goto(p, IF StampFirst THEN "cv_stamp" ELSE "cv_list") /\ checkedAt' = [checkedAt EXCEPT ![p] = puts + 1]
+    /\ UNCHANGED <<srcVer, srcMtime, edits, clock, files, nextIno, entryIno, stamp, stampFrom, fd, stm, parsed, tmp, result, putAt, puts>>
 
 CvList(p) ==      \* os.listdir(directory)
     /\ pc[p] = "cv_list"
-    /\ Goto(p, IF entryIno = 0 THEN "cv_stamp" ELSE "cv_unlink")
-    /\ UNCHANGED <<srcVer, srcMtime, edits, clock, files, nextIno, entryIno, stamp, fd, stm, parsed, tmp, result, startVer, checkedAt, putAt, puts>>
+    /\ Goto(p, IF entryIno = 0 THEN (IF StampFirst THEN "l_open" ELSE "cv_stamp") ELSE "cv_unlink")
+    /\ startVer' = [startVer EXCEPT ![p] = IF entryIno = 0 /\ StampFirst THEN srcVer ELSE @]
+    /\ UNCHANGED <<srcVer, srcMtime, edits, clock, files, nextIno, entryIno, stamp, stampFrom, fd, stm, parsed, tmp, result, checkedAt, putAt, puts>>
 
 CvUnlink(p) ==    \* os.unlink(name) -- by name: removes whatever is there now (ENOENT ignored)
     /\ pc[p] = "cv_unlink"
     /\ entryIno' = 0
-    /\ Goto(p, "cv_stamp")
-    /\ UNCHANGED <<srcVer, srcMtime, edits, clock, files, nextIno, stamp, fd, stm, parsed, tmp, result, startVer, checkedAt, putAt, puts>>
+    /\ Goto(p, IF StampFirst THEN "l_open" ELSE "cv_stamp")
+    /\ startVer' = [startVer EXCEPT ![p] = IF StampFirst THEN srcVer ELSE @]
+    /\ UNCHANGED <<srcVer, srcMtime, edits, clock, files, nextIno, stamp, stampFrom, fd, stm, parsed, tmp, result, checkedAt, putAt, puts>>
 
 CvStamp(p) ==     \* mkstemp + write + shutil.move(tmp, version)  (the stamp file is tiny; taken as atomic)
     /\ pc[p] = "cv_stamp"
-    /\ stamp' = SVer[p]
-    /\ startVer' = [startVer EXCEPT ![p] = srcVer]       \* the constructor returns; load() is called now
-    /\ Goto(p, "l_open")
+    /\ stamp' = SVer[p] /\ stampFrom' = checkedAt[p]
+    /\ startVer' = [startVer EXCEPT ![p] = IF StampFirst THEN @ ELSE srcVer]   \* the constructor returns; load() is called now
+    /\ Goto(p, IF StampFirst THEN "cv_list" ELSE "l_open")
     /\ UNCHANGED <<srcVer, srcMtime, edits, clock, files, nextIno, entryIno, fd, stm, parsed, tmp, result, checkedAt, putAt, puts>>
 
 ---------------------------------------------------------------------------
@@ -108,7 +116,7 @@ LOpen(p) ==       \* open(store_filename, 'rb')
     /\ IF entryIno = 0
          THEN /\ Goto(p, "parse") /\ Return(p, NoneRes) /\ UNCHANGED fd
          ELSE /\ Goto(p, "l_stat") /\ fd' = [fd EXCEPT ![p] = entryIno] /\ UNCHANGED result
-    /\ UNCHANGED <<srcVer, srcMtime, edits, clock, files, nextIno, entryIno, stamp, stm, parsed, tmp, startVer, checkedAt, putAt, puts>>
+    /\ UNCHANGED <<srcVer, srcMtime, edits, clock, files, nextIno, entryIno, stamp, stampFrom, stm, parsed, tmp, startVer, checkedAt, putAt, puts>>
 
 \* _cache_is_valid, first half: os.stat(store_filename) [byName] or os.fstat(fd)
 LStatWith(p, byName) ==
@@ -119,7 +127,7 @@ LStatWith(p, byName) ==
          ELSE /\ Goto(p, "l_statsrc") /\ stm' = [stm EXCEPT ![p] = files[ino].mtime]
               \* remember whether another inode than the opened one was judged
               /\ result' = [result EXCEPT ![p].cause = IF ino # fd[p] THEN "stat_by_name" ELSE "none"]
-    /\ UNCHANGED <<srcVer, srcMtime, edits, clock, files, nextIno, entryIno, stamp, fd, parsed, tmp, startVer, checkedAt, putAt, puts>>
+    /\ UNCHANGED <<srcVer, srcMtime, edits, clock, files, nextIno, entryIno, stamp, stampFrom, fd, parsed, tmp, startVer, checkedAt, putAt, puts>>
 
 LStat(p) == LStatWith(p, StatByName)
 
@@ -130,7 +138,7 @@ LStatSrc(p) ==    \* second half: store_mtime >= os.stat(filename).st_mtime
               /\ result' = [result EXCEPT ![p].cause =
                                IF @ = "none" /\ stm[p] = srcMtime /\ srcVer > 1 THEN "equal_mtime" ELSE @]
          ELSE Goto(p, "parse") /\ Return(p, NoneRes)
-    /\ UNCHANGED <<srcVer, srcMtime, edits, clock, files, nextIno, entryIno, stamp, fd, stm, parsed, tmp, startVer, checkedAt, putAt, puts>>
+    /\ UNCHANGED <<srcVer, srcMtime, edits, clock, files, nextIno, entryIno, stamp, stampFrom, fd, stm, parsed, tmp, startVer, checkedAt, putAt, puts>>
 
 LRead(p) ==       \* pickle.load(fd): succeeds iff the inode holds a complete pickle
     /\ pc[p] = "l_read"
@@ -139,13 +147,13 @@ LRead(p) ==       \* pickle.load(fd): succeeds iff the inode holds a complete pi
                             cause |-> IF result[p].cause # "none" THEN result[p].cause ELSE files[fd[p]].cause])
               /\ Goto(p, "done")
          ELSE /\ Goto(p, "l_unlink") /\ UNCHANGED result
-    /\ UNCHANGED <<srcVer, srcMtime, edits, clock, files, nextIno, entryIno, stamp, fd, stm, parsed, tmp, startVer, checkedAt, putAt, puts>>
+    /\ UNCHANGED <<srcVer, srcMtime, edits, clock, files, nextIno, entryIno, stamp, stampFrom, fd, stm, parsed, tmp, startVer, checkedAt, putAt, puts>>
 
 LUnlink(p) ==     \* broken entry: os.unlink(store_filename) by name, result None
     /\ pc[p] = "l_unlink"
     /\ entryIno' = 0
     /\ Return(p, NoneRes) /\ Goto(p, "parse")
-    /\ UNCHANGED <<srcVer, srcMtime, edits, clock, files, nextIno, stamp, fd, stm, parsed, tmp, startVer, checkedAt, putAt, puts>>
+    /\ UNCHANGED <<srcVer, srcMtime, edits, clock, files, nextIno, stamp, stampFrom, fd, stm, parsed, tmp, startVer, checkedAt, putAt, puts>>
 
 ---------------------------------------------------------------------------
 \* Transformer._parse_include: GIRParser.parse(filename) reads the version that is current now
@@ -153,7 +161,7 @@ Parse(p) ==
     /\ pc[p] = "parse"
     /\ parsed' = [parsed EXCEPT ![p] = srcVer]
     /\ Goto(p, "s_stat")
-    /\ UNCHANGED <<srcVer, srcMtime, edits, clock, files, nextIno, entryIno, stamp, fd, stm, tmp, result, startVer, checkedAt, putAt, puts>>
+    /\ UNCHANGED <<srcVer, srcMtime, edits, clock, files, nextIno, entryIno, stamp, stampFrom, fd, stm, tmp, result, startVer, checkedAt, putAt, puts>>
 
 \* CacheStore.store
 SStat(p) ==       \* _cache_is_valid(store_filename, filename), first half: os.stat(store_filename)
@@ -161,14 +169,14 @@ SStat(p) ==       \* _cache_is_valid(store_filename, filename), first half: os.s
     /\ IF entryIno = 0
          THEN Goto(p, "s_mkstemp") /\ UNCHANGED stm
          ELSE Goto(p, "s_statsrc") /\ stm' = [stm EXCEPT ![p] = files[entryIno].mtime]
-    /\ UNCHANGED <<srcVer, srcMtime, edits, clock, files, nextIno, entryIno, stamp, fd, parsed, tmp, result, startVer, checkedAt, putAt, puts>>
+    /\ UNCHANGED <<srcVer, srcMtime, edits, clock, files, nextIno, entryIno, stamp, stampFrom, fd, parsed, tmp, result, startVer, checkedAt, putAt, puts>>
 
 SStatSrc(p) ==    \* second half; a valid entry means nothing to store
     /\ pc[p] = "s_statsrc"
     /\ IF stm[p] >= srcMtime
          THEN Goto(p, "done")
          ELSE Goto(p, "s_mkstemp")
-    /\ UNCHANGED <<srcVer, srcMtime, edits, clock, files, nextIno, entryIno, stamp, fd, stm, parsed, tmp, result, startVer, checkedAt, putAt, puts>>
+    /\ UNCHANGED <<srcVer, srcMtime, edits, clock, files, nextIno, entryIno, stamp, stampFrom, fd, stm, parsed, tmp, result, startVer, checkedAt, putAt, puts>>
 
 SMkstemp(p) ==    \* tempfile.mkstemp()   (MaxIno is an artefact of the bounded model: out of inodes = give up)
     /\ pc[p] = "s_mkstemp"
@@ -177,7 +185,7 @@ SMkstemp(p) ==    \* tempfile.mkstemp()   (MaxIno is an artefact of the bounded 
          ELSE /\ tmp' = [tmp EXCEPT ![p] = nextIno] /\ nextIno' = nextIno + 1
               /\ files' = [files EXCEPT ![nextIno] = [ver |-> 0, st |-> "empty", mtime |-> clock, sver |-> SVer[p], cause |-> "none"]]
               /\ Goto(p, "s_write")
-    /\ UNCHANGED <<srcVer, srcMtime, edits, clock, entryIno, stamp, fd, stm, parsed, result, startVer, checkedAt, putAt, puts>>
+    /\ UNCHANGED <<srcVer, srcMtime, edits, clock, entryIno, stamp, stampFrom, fd, stm, parsed, result, startVer, checkedAt, putAt, puts>>
 
 \* a write that stamps an mtime on content that an edit has already superseded creates an entry that
 \* looks fresh and is stale: the root cause behind known findings C18-parse-edit-store / C18-copy-window
@@ -187,14 +195,14 @@ SWrite(p) ==      \* pickle.dump(data, tmp_file); close
                                            cause |-> IF parsed[p] < srcVer THEN "parse_edit_store" ELSE "none"]]
     /\ Advance
     /\ Goto(p, "s_move")
-    /\ UNCHANGED <<srcVer, srcMtime, edits, nextIno, entryIno, stamp, fd, stm, parsed, tmp, result, startVer, checkedAt, putAt, puts>>
+    /\ UNCHANGED <<srcVer, srcMtime, edits, nextIno, entryIno, stamp, stampFrom, fd, stm, parsed, tmp, result, startVer, checkedAt, putAt, puts>>
 
 SRename(p) ==     \* shutil.move: os.rename succeeds (same device) -- atomic replacement of the name
     /\ pc[p] = "s_move"
     /\ entryIno' = tmp[p]
     /\ puts' = puts + 1 /\ putAt' = [putAt EXCEPT ![tmp[p]] = puts + 1]
     /\ Goto(p, "done")
-    /\ UNCHANGED <<srcVer, srcMtime, edits, clock, files, nextIno, stamp, fd, stm, parsed, tmp, result, startVer, checkedAt>>
+    /\ UNCHANGED <<srcVer, srcMtime, edits, clock, files, nextIno, stamp, stampFrom, fd, stm, parsed, tmp, result, startVer, checkedAt>>
 
 \* shutil.move: os.rename fails with EXDEV -> copy2(tmp, name); unlink(tmp)
 CopyCause(p) == IF parsed[p] < srcVer THEN "copy_window" ELSE "none"
@@ -213,19 +221,19 @@ CopyOpen(p) ==    \* open(name, 'wb'): truncates the existing inode in place, or
                 /\ entryIno' = nextIno /\ nextIno' = nextIno + 1 /\ Goto(p, "c_write1")
            ELSE /\ UNCHANGED <<files, entryIno, nextIno, puts, putAt, fd>> /\ Goto(p, "done")
     /\ Advance
-    /\ UNCHANGED <<srcVer, srcMtime, edits, stamp, stm, parsed, tmp, result, startVer, checkedAt>>
+    /\ UNCHANGED <<srcVer, srcMtime, edits, stamp, stampFrom, stm, parsed, tmp, result, startVer, checkedAt>>
 
 CopyWrite1(p) ==  \* first part of the data reaches the destination inode
     /\ pc[p] = "c_write1"
     /\ files' = [files EXCEPT ![fd[p]] = [ver |-> parsed[p], st |-> "partial", mtime |-> clock, sver |-> SVer[p], cause |-> CopyCause(p)]]
     /\ Advance /\ Goto(p, "c_write2")
-    /\ UNCHANGED <<srcVer, srcMtime, edits, nextIno, entryIno, stamp, fd, stm, parsed, tmp, result, startVer, checkedAt, putAt, puts>>
+    /\ UNCHANGED <<srcVer, srcMtime, edits, nextIno, entryIno, stamp, stampFrom, fd, stm, parsed, tmp, result, startVer, checkedAt, putAt, puts>>
 
 CopyWrite2(p) ==  \* rest of the data
     /\ pc[p] = "c_write2"
     /\ files' = [files EXCEPT ![fd[p]] = [ver |-> parsed[p], st |-> "complete", mtime |-> clock, sver |-> SVer[p], cause |-> CopyCause(p)]]
     /\ Advance /\ Goto(p, "c_stat")
-    /\ UNCHANGED <<srcVer, srcMtime, edits, nextIno, entryIno, stamp, fd, stm, parsed, tmp, result, startVer, checkedAt, putAt, puts>>
+    /\ UNCHANGED <<srcVer, srcMtime, edits, nextIno, entryIno, stamp, stampFrom, fd, stm, parsed, tmp, result, startVer, checkedAt, putAt, puts>>
 
 CopyStat(p) ==    \* copystat(tmp, name): BY NAME -- sets the mtime of whatever the name refers to now;
                   \* a vanished name raises FileNotFoundError out of store(): the scan dies (pc "failed")
@@ -239,14 +247,14 @@ CopyStat(p) ==    \* copystat(tmp, name): BY NAME -- sets the mtime of whatever 
                                                          THEN "copy_window" ELSE @]
          ELSE UNCHANGED files
     /\ Goto(p, IF entryIno # 0 THEN "done" ELSE "failed")
-    /\ UNCHANGED <<srcVer, srcMtime, edits, clock, nextIno, entryIno, stamp, fd, stm, parsed, tmp, result, startVer, checkedAt, putAt, puts>>
+    /\ UNCHANGED <<srcVer, srcMtime, edits, clock, nextIno, entryIno, stamp, stampFrom, fd, stm, parsed, tmp, result, startVer, checkedAt, putAt, puts>>
 
 ---------------------------------------------------------------------------
 Crash(p) ==
     /\ Cardinality({q \in Procs : pc[q] = "crashed"}) < MaxCrashes
     /\ pc[p] \notin {"done", "crashed", "failed", "cv_read"}
     /\ Goto(p, "crashed")
-    /\ UNCHANGED <<srcVer, srcMtime, edits, clock, files, nextIno, entryIno, stamp, fd, stm, parsed, tmp, result, startVer, checkedAt, putAt, puts>>
+    /\ UNCHANGED <<srcVer, srcMtime, edits, clock, files, nextIno, entryIno, stamp, stampFrom, fd, stm, parsed, tmp, result, startVer, checkedAt, putAt, puts>>
 
 Step(p) == \/ CvRead(p) \/ CvList(p) \/ CvUnlink(p) \/ CvStamp(p)
            \/ LOpen(p) \/ LStat(p) \/ LStatSrc(p) \/ LRead(p) \/ LUnlink(p)
@@ -289,12 +297,13 @@ NoWitnessCopyStatLost == \A p \in Procs : pc[p] # "failed"
 NoTorn == \A p \in Procs : IsData(p) => result[p].ver >= 1 /\ files[result[p].ino].st # "free"
 
 \* "a change of scanner version discards all entries": a process that found another version's stamp
-\* (and therefore had to purge) is never served an entry that was in place before it looked
+\* (and therefore had to purge) is never served an entry that was in place before it looked; a
+\* process that found its own version's stamp relies on the purge of the process that wrote it
 NoCrossVersion == \A p \in Procs :
     (IsData(p) /\ checkedAt[p] > 0) => putAt[result[p].ino] >= checkedAt[p]
 \* and when its purge is over, whatever the name refers to was put there after it looked
 PurgeEffective == \A p \in Procs :
-    pc[p] = "cv_stamp" => (entryIno = 0 \/ putAt[entryIno] >= checkedAt[p])
+    (pc[p] = "cv_stamp" /\ ~StampFirst) => (entryIno = 0 \/ putAt[entryIno] >= checkedAt[p])
 
 TypeOK == /\ entryIno \in 0..MaxIno /\ nextIno \in 1..(MaxIno + 1)
           /\ \A p \in Procs : fd[p] \in 0..MaxIno /\ tmp[p] \in 0..MaxIno
